@@ -647,6 +647,9 @@ def run(rep, tier, seed):
             lib, mod = a, mev[('nummod', b, c['b'])]
             v['built'] = b
         else:
+            if v['status'] == 'skip':         # the operand's value is too big for the evaluator: not compared at all
+                corr['operand_toobig'] = corr.get('operand_toobig', 0) + 1
+                continue
             lib, mod = a.split('|')[1], v.get('model', 'MISSING')
         if v.get('built', '').startswith('('):
             symbolic_mod += 1
